@@ -132,3 +132,102 @@ Qed.
 
 Lemma check_exit_values l : check_exit l = 0 \/ check_exit l = 1.
 Proof. induction l as [|[|] l IH]; simpl; auto. Qed.
+
+(* ---- the per-file loop ---- *)
+Lemma gen_files_doc : forall files first info m reg given,
+  gen_files files first info m reg given = doc_calls (map (doc_call info m reg given) files).
+Proof.
+  induction files as [|f r IH]; intros first info m reg given; [reflexivity|].
+  cbn [gen_files map doc_calls]. unfold doc_call at 1.
+  destruct (assoc f info) as [fi|]; [|reflexivity].
+  assert (HL : lang_for m fi = doc_lang m fi) by (destruct m; reflexivity).
+  rewrite HL. destruct (doc_lang m fi) as [l|]; [|reflexivity].
+  destruct (f_valid fi l); [|reflexivity].
+  change lookup_per_file with true. change any_permitted_iff_deduced with true. cbv iota.
+  destruct (lookup reg l (is_per_file m)) as [[gl decl]|]; [|reflexivity].
+  destruct (validate decl given); try reflexivity.
+  rewrite IH. reflexivity.
+Qed.
+
+Lemma doc_calls_exit : forall cs, (fst (doc_calls cs) = 0 <-> Forall (fun c => c <> None) cs) /\ (fst (doc_calls cs) = 0 \/ fst (doc_calls cs) = 1).
+Proof.
+  induction cs as [|[c|] r [IH1 IH2]]; cbn [doc_calls].
+  - split; [split; [constructor | reflexivity] | left; reflexivity].
+  - destruct (doc_calls r) as [e cs'] eqn:E. cbn [fst] in *. split; [|exact IH2].
+    rewrite IH1. split; [intro H; constructor; [discriminate | exact H] | intro H; inversion H; assumption].
+  - cbn [fst]. split; [|right; reflexivity]. split; [discriminate|]. intro H. inversion H as [|x l Hx Hl]. exfalso. apply Hx. reflexivity.
+Qed.
+
+(* every generator call is for a file of the command line, made by the generator registered for the
+   language of that very file (or by the "any" generator when that language has none and was deduced) *)
+Lemma doc_calls_sound : forall cs c, In c (snd (doc_calls cs)) -> In (Some c) cs.
+Proof.
+  induction cs as [|[c0|] r IH]; intros c H; cbn [doc_calls] in H.
+  - destruct H.
+  - destruct (doc_calls r) as [e cs'] eqn:E. cbn [snd] in *. destruct H as [H|H]; [left; congruence | right; apply IH; exact H].
+  - destruct H.
+Qed.
+
+Lemma doc_calls_complete : forall cs, fst (doc_calls cs) = 0 -> map Some (snd (doc_calls cs)) = cs.
+Proof.
+  induction cs as [|[c0|] r IH]; intro H; cbn [doc_calls] in *.
+  - reflexivity.
+  - destruct (doc_calls r) as [e cs'] eqn:E. cbn [fst snd map] in *. rewrite IH by assumption. reflexivity.
+  - discriminate.
+Qed.
+
+Lemma generator_per_file : forall files info m reg given f gl l,
+  In (f, gl, l) (snd (gen_files files None info m reg given)) ->
+  In f files /\ exists fi decl, assoc f info = Some fi /\ doc_lang m fi = Some l /\ f_valid fi l = true /\
+     lookup reg l (is_per_file m) = Some (gl, decl) /\ validate decl given = Accept.
+Proof.
+  intros files info m reg given f gl l H. rewrite gen_files_doc in H. apply doc_calls_sound in H.
+  apply in_map_iff in H. destruct H as [f' [Hc Hin]]. unfold doc_call in Hc.
+  destruct (assoc f' info) as [fi|] eqn:A; [|discriminate].
+  destruct (doc_lang m fi) as [l'|] eqn:L; [|discriminate].
+  destruct (f_valid fi l') eqn:V; [|discriminate].
+  destruct (lookup reg l' (is_per_file m)) as [[gl' decl]|] eqn:K; [|discriminate].
+  destruct (validate decl given) eqn:W; try discriminate.
+  inversion Hc; subst f' gl' l'. split; [assumption|]. exists fi, decl. repeat split; assumption.
+Qed.
+
+Lemma lookup_own_language : forall reg l ap gl decl, lookup reg l ap = Some (gl, decl) ->
+  (gl = l /\ reg l = Some decl) \/ (ap = true /\ reg l = None /\ gl = any_lang /\ reg any_lang = Some decl).
+Proof.
+  intros reg l ap gl decl H. unfold lookup in H. destruct (reg l) as [g|] eqn:R.
+  - inversion H; subst. left. split; reflexivity.
+  - destruct ap; [|discriminate]. destruct (reg any_lang) as [g|] eqn:R2; [|discriminate]. inversion H; subst.
+    right. repeat split; reflexivity.
+Qed.
+
+Lemma check_cmd_exit : forall m info files,
+  (check_cmd m info files = 0 <-> forall f, In f files -> file_loads m info f = true) /\
+  (check_cmd m info files = 0 \/ check_cmd m info files = 1).
+Proof.
+  intros m info files. unfold check_cmd. split; [|apply check_exit_values].
+  rewrite check_exit_zero_iff, forallb_forall. split.
+  - intros H f Hin. apply (H (file_loads m info f)). apply in_map. exact Hin.
+  - intros H b Hb. apply in_map_iff in Hb. destruct Hb as [f [Hf Hin]]. subst b. apply H. exact Hin.
+Qed.
+
+Lemma generator_per_file_full : forall files info m reg given f gl l,
+  In (f, gl, l) (snd (gen_files files None info m reg given)) ->
+  In f files /\ exists fi decl, assoc f info = Some fi /\ doc_lang m fi = Some l /\ f_valid fi l = true /\
+     lookup reg l (is_per_file m) = Some (gl, decl) /\ validate decl given = Accept /\
+     ((gl = l /\ reg l = Some decl) \/ (is_per_file m = true /\ reg l = None /\ gl = any_lang /\ reg any_lang = Some decl)).
+Proof.
+  intros files info m reg given f gl l H.
+  destruct (generator_per_file files info m reg given f gl l H) as [H1 [fi [decl [A [B [C [D E]]]]]]].
+  split; [exact H1|]. exists fi, decl. repeat (split; [assumption|]). exact (lookup_own_language _ _ _ _ _ D).
+Qed.
+
+Lemma generate_exit : forall files info m reg given,
+  let r := gen_files files None info m reg given in
+  (fst r = 0 <-> Forall (fun f => doc_call info m reg given f <> None) files) /\ (fst r = 0 \/ fst r = 1) /\
+  (fst r = 0 -> map Some (snd r) = map (doc_call info m reg given) files).
+Proof.
+  intros files info m reg given. cbv zeta. rewrite gen_files_doc.
+  destruct (doc_calls_exit (map (doc_call info m reg given) files)) as [H1 H2].
+  split; [|split; [exact H2 | apply doc_calls_complete]].
+  rewrite H1. rewrite Forall_map. reflexivity.
+Qed.
